@@ -37,9 +37,10 @@ def text_of(tokens) -> str:
 
 
 SECOND = 1 << 28      # record ids of the second (reverse-order) pass
+LISTING = 1 << 29     # record ids of instructions observed inside a multi-line listing
 
 
-def observe(dh, rid: int, enc: bytes) -> Dict[str, Any]:
+def observe(dh, rid: int, enc: bytes, forced_b2: bytes = None) -> Dict[str, Any]:
     from sc62015.pysc62015.instr import decode, OPCODES
     from sc62015.pysc62015.sc_asm import Assembler
     rec: Dict[str, Any] = {"id": rid, "b": list(enc) + [0] * (8 - len(enc)), "n": len(enc), "ok": 0, "b2": [0] * 8, "n2": 0, "same_text": 0,
@@ -48,7 +49,7 @@ def observe(dh, rid: int, enc: bytes) -> Dict[str, Any]:
     text = text_of(ins.render())
     rec["text"] = text
     try:
-        b2 = bytes(Assembler().assemble(text).as_binary())
+        b2 = forced_b2 if forced_b2 is not None else bytes(Assembler().assemble(text).as_binary())
     except Exception as ex:      # noqa: BLE001
         rec["err"] = f"{type(ex).__name__}: {str(ex).splitlines()[0][:160]}"
         return rec
@@ -112,6 +113,33 @@ def _job(arg):
         if b2 != was:
             again.append(observe(dh, rid + SECOND, enc))
     recs += again
+    # listings: several rendered instructions assembled by ONE assemble() call must come out as the concatenation of what each
+    # line assembles to alone (state shared between the lines of a program - operands, selectors - shows only here)
+    rndl = random.Random(shard_id * 7919 + len(items))
+    okrecs = [r for r in recs if r["id"] < SECOND and r["ok"] and r["text"] and not r["text"].startswith("???")]
+    for _ in range(min(len(okrecs) // 2, 400)):
+        grp = rndl.sample(okrecs, rndl.choice([2, 2, 3, 4])) if len(okrecs) >= 4 else []
+        if not grp:
+            break
+        try:
+            whole = bytes(Assembler().assemble("\n".join(g["text"] for g in grp)).as_binary())
+        except Exception as ex:      # noqa: BLE001
+            r0 = dict(grp[0]); r0.update({"id": grp[0]["id"] + LISTING, "ok": 0, "err": f"listing: {type(ex).__name__}: {str(ex).splitlines()[0][:120]}"})
+            recs.append(r0)
+            continue
+        want = [bytes(g["b2"][: g["n2"]]) for g in grp]
+        if whole == b"".join(want):
+            continue
+        if len(whole) != sum(len(w) for w in want):
+            r0 = dict(grp[0]); r0.update({"id": grp[0]["id"] + LISTING, "ok": 0, "err": f"listing of {len(grp)} lines assembles to {len(whole)} bytes, the lines alone to {sum(len(w) for w in want)}"})
+            recs.append(r0)
+            continue
+        pos = 0
+        for g, w in zip(grp, want):
+            piece = whole[pos: pos + len(w)]
+            pos += len(w)
+            if piece != w:
+                recs.append(observe(dh, g["id"] + LISTING, bytes(g["b"][: g["n"]]), forced_b2=piece))
     v = judge(shard_id, recs)
     byid = {r["id"]: r for r in recs}
     bad = []
@@ -141,7 +169,9 @@ def _job(arg):
             tg.append("prefix-added")
         if r["ok"] and len(b2) - (1 if b2[0] in c04.PRE_SET else 0) < len(enc) - (1 if pre else 0):      # the instruction body lost a byte
             tg.append("shorter")
-        if r["id"] >= SECOND:
+        if r["id"] >= LISTING:
+            tg.append("in-listing")
+        elif r["id"] >= SECOND:
             tg.append("second-pass")
         bad.append((str(x[1]), f"op{op:02X}:" + ",".join(tg), {"kind": "asm", "bytes": b[: r["n"]]}, r["text"], b2.hex(), r.get("text2", ""), r["err"]))
     return len(recs), bad[:6000], len(bad), len(v[3])
